@@ -2,10 +2,13 @@ package c20
 
 import (
 	"fmt"
+	"os"
 	"strconv"
 	"testing"
 
 	"pgregory.net/rapid"
+
+	"github.com/echovault/sugardb/verifhook"
 
 	"verifharness/common"
 	"verifharness/engine"
@@ -25,11 +28,14 @@ func TestMain(m *testing.M) {
 			"SWAPDB i j, FLUSHDB, FLUSHALL. Oracle: reference model db → keyspace plus the selected database per actor (SWAPDB re-points TCP connections only, as documented); after every step the reply is compared with the model and TYPE / full read / PEXPIRETIME of every key of every database of the universe are compared (non-interference: only the addressed database may change). "+
 			"A case is one history; non-trivial = at least two databases are non-empty at some point and a command runs in one of them, or a database index of two or more digits is used, or a SWAPDB is followed by a command of a TCP actor; distinct = FNV-64 of the history.",
 		"observation uses the embedded API with SelectDB on every database of the universe after every step",
-		"eviction bookkeeping and the persistence/replication clauses are covered by the restart legs of C02/C03/C07, not here")
+		"one case in three runs with an append-only log and may restart the server (clean shutdown, AOF restore) at any step: the reference model is unchanged by a restart, actors are back in database 0",
+		"eviction bookkeeping, snapshot restore and replication are covered by C08/C03/C07, not here")
 	common.Main(m, rec)
 }
 
 type world struct {
+	persist bool   // the server keeps an append-only log and the history may restart it
+	dir     string // data directory (persist only)
 	s     *sut.Server
 	conns []*sut.Conn
 	sel   []int // selected db per actor: 0,1 = TCP, 2 = embedded
@@ -37,13 +43,32 @@ type world struct {
 	embDB int
 }
 
-func newWorld(t interface{ Fatalf(string, ...any) }) *world {
+func newWorld(t interface{ Fatalf(string, ...any) }, persist bool) *world {
+	w := &world{sel: []int{0, 0, 0}, persist: persist}
+	if persist {
+		w.dir = sut.NewScratchDir("c20")
+	}
+	w.start(t, false, nil)
+	w.e = engine.New(w.s, keys, rec)
+	w.e.CompareAll = true
+	w.e.DBs = dbUniverse
+	w.e.ObserverDB = &w.embDB
+	return w
+}
+
+// start (re)starts the server and the two TCP connections.
+func (w *world) start(t interface{ Fatalf(string, ...any) }, restore bool, clock *verifhook.VirtualClock) {
 	port := sut.FreePort()
-	s, err := sut.New(sut.Opts{Port: port})
+	o := sut.Opts{Port: port, Clock: clock}
+	if w.persist {
+		o.DataDir, o.AOFSync, o.RestoreAOF = w.dir, "no", restore
+	}
+	s, err := sut.New(o)
 	if err != nil {
 		t.Fatalf("HARNESS-ERROR: %v", err)
 	}
-	w := &world{s: s, sel: []int{0, 0, 0}}
+	w.s = s
+	w.conns = nil
 	for i := 0; i < 2; i++ {
 		c, err := sut.Dial(port)
 		if err != nil {
@@ -55,12 +80,11 @@ func newWorld(t interface{ Fatalf(string, ...any) }) *world {
 		}
 		w.conns = append(w.conns, c)
 	}
-	w.e = engine.New(s, keys, rec)
-	w.e.CompareAll = true
-	w.e.DBs = dbUniverse
-	w.e.ObserverDB = &w.embDB
-	return w
 }
+
+type fatalPanic struct{}
+
+func (fatalPanic) Fatalf(format string, a ...any) { panic(fmt.Sprintf(format, a...)) }
 
 func (w *world) close() {
 	for _, c := range w.conns {
@@ -68,6 +92,9 @@ func (w *world) close() {
 	}
 	w.s.Close()
 	w.s.RemoveDir()
+	if w.dir != "" {
+		_ = os.RemoveAll(w.dir)
+	}
 }
 
 // via points the engine at an actor.
@@ -128,6 +155,22 @@ func (w *world) apply(a action) (*engine.Failure, string) {
 			return nil, fmt.Sprintf("invalid %q answered %s instead of an error", a.Cmd, rep)
 		}
 		return nil, ""
+	case "restart":
+		// clean shutdown and restart from the append-only log: every key is still in its database; connections
+		// and the embedded caller start in database 0 again
+		if !w.persist {
+			return nil, ""
+		}
+		for _, c := range w.conns {
+			c.Close()
+		}
+		clk := w.s.Clock
+		w.s.Close()
+		w.start(fatalPanic{}, true, clk)
+		w.e.S = w.s
+		w.sel, w.embDB = []int{0, 0, 0}, 0
+		w.e.Trace = append(w.e.Trace, engine.TraceStep{Op: "restart"})
+		return w.exec(2, "TYPE", "a"), ""
 	case "swapdb":
 		f := w.exec(a.Actor, a.Cmd...)
 		if f != nil {
@@ -157,6 +200,9 @@ func (w *world) apply(a action) (*engine.Failure, string) {
 func draw(t *rapid.T, w *world) action {
 	actor := rapid.IntRange(0, 2).Draw(t, "actor")
 	idx := func(l string) int { return rapid.SampledFrom(dbUniverse).Draw(t, l) }
+	if w.persist && rapid.IntRange(0, 11).Draw(t, "restart") == 0 {
+		return action{Actor: 2, Kind: "restart"}
+	}
 	switch rapid.IntRange(0, 19).Draw(t, "kind") {
 	case 0, 1, 2, 3:
 		n := idx("db")
@@ -205,7 +251,8 @@ func sanitize(cmd []string) []string {
 }
 
 func runCase(t *rapid.T) {
-	w := newWorld(t)
+	persist := rapid.IntRange(0, 2).Draw(t, "persist") == 0
+	w := newWorld(t, persist)
 	defer w.close()
 	n := rapid.IntRange(2, 35).Draw(t, "steps")
 	nontrivial := false
@@ -219,10 +266,10 @@ func runCase(t *rapid.T) {
 		rec.Class("kind:" + a.Kind)
 		f, msg := w.apply(a)
 		if f != nil {
-			common.FailCase(t, rec, "random", map[string]any{"actions": acts}, w.e.Trace, f)
+			common.FailCase(t, rec, "random", map[string]any{"actions": acts, "persist": persist}, w.e.Trace, f)
 		}
 		if msg != "" {
-			common.FailCase(t, rec, "random", map[string]any{"actions": acts}, w.e.Trace, fmt.Errorf("%s", msg))
+			common.FailCase(t, rec, "random", map[string]any{"actions": acts, "persist": persist}, w.e.Trace, fmt.Errorf("%s", msg))
 		}
 		nonEmpty := 0
 		for _, db := range dbUniverse {
@@ -230,7 +277,7 @@ func runCase(t *rapid.T) {
 				nonEmpty++
 			}
 		}
-		if nonEmpty >= 2 || (a.Kind == "select" && a.DB >= 10) || a.Kind == "swapdb" {
+		if nonEmpty >= 2 || (a.Kind == "select" && a.DB >= 10) || a.Kind == "swapdb" || (a.Kind == "restart" && nonEmpty >= 1) {
 			nontrivial = true
 		}
 	}
@@ -239,7 +286,9 @@ func runCase(t *rapid.T) {
 	for _, a := range acts {
 		canon += fmt.Sprintf("%d|%s|%d|%q\x1e", a.Actor, a.Kind, a.DB, a.Cmd)
 		who := []string{"tcp0", "tcp1", "embedded"}[a.Actor]
-		if a.Kind == "select" && a.Actor == 2 {
+		if a.Kind == "restart" {
+			sample = append(sample, "restart from the append-only log")
+		} else if a.Kind == "select" && a.Actor == 2 {
 			sample = append(sample, fmt.Sprintf("%s SelectDB(%d)", who, a.DB))
 		} else {
 			sample = append(sample, fmt.Sprintf("%s %q", who, a.Cmd))
@@ -266,7 +315,8 @@ func TestReplay(t *testing.T) {
 		t.Fatalf("HARNESS-ERROR: %v", err)
 	}
 	raw, _ := r.Config["actions"].([]any)
-	w := newWorld(t)
+	persist, _ := r.Config["persist"].(bool)
+	w := newWorld(t, persist)
 	defer w.close()
 	for _, x := range raw {
 		mp := x.(map[string]any)
